@@ -301,4 +301,111 @@ def ed_complete_assoc_statement : Prop :=
     (∀ P Q R : EPt F, E.onCurve a d P → E.onCurve a d Q → E.onCurve a d R →
       E.add a d (E.add a d P Q) R = E.add a d P (E.add a d Q R))
 
+/-! ## Scalar and multi-scalar multiplication of the model
+
+`W.smul`/`W.msm` (what the driver evaluates for every Go `ScalarMul`, `ScalarBaseMul`,
+`MultiScalarMul`, and the raw windowed ladder) are double-and-add / a left fold.  They are the
+`k`-fold sum in ANY additive monoid `G` that the model's `add` represents through a map `φ`
+(`φ (x + y) = W.add a (φ x) (φ y)`, `φ 0 = inf`) — for the curves of the library `G` is the group
+of rational points; that `W.add` is that group law is the content of Mathlib's
+`WeierstrassCurve.Affine.Point` and is taken as the hypothesis `hadd`.  The Go windowed ladder and
+Pippenger bucket method are NOT translated: they are tied to `W.smul`/`W.msm` by correspondence only. -/
+
+theorem W_double_eq_add_self (a : F) (P : WPt F) : W.double a P = W.add a P P := by
+  cases P with
+  | inf => simp [W.double, W.add]
+  | aff x y => simp [W.add]
+
+theorem smulAux_hom {G : Type} [AddMonoid G] (a : F) (φ : G → WPt F)
+    (hadd : ∀ x y, φ (x + y) = W.add a (φ x) (φ y)) :
+    ∀ (fuel k : Nat) (g acc : G), k < 2 ^ fuel → W.smulAux a fuel k (φ g) (φ acc) = φ (acc + k • g) := by
+  intro fuel
+  induction fuel with
+  | zero =>
+    intro k g acc hk
+    have : k = 0 := by omega
+    subst this
+    simp [W.smulAux]
+  | succ n ih =>
+    intro k g acc hk
+    unfold W.smulAux
+    by_cases h0 : k = 0
+    · subst h0; simp
+    · simp only [h0, if_false]
+      rw [W_double_eq_add_self, ← hadd]
+      have hk2 : k / 2 < 2 ^ n := by
+        rw [pow_succ] at hk; omega
+      have key : ∀ acc' : G, acc' + (k / 2) • (g + g) = acc' + (2 * (k / 2)) • g := by
+        intro acc'; rw [← two_nsmul, ← mul_nsmul', mul_comm]
+      by_cases h1 : k % 2 = 1
+      · simp only [h1, if_true]
+        have hk' : 2 * (k / 2) + 1 = k := by omega
+        rw [← hadd, ih (k / 2) (g + g) (acc + g) hk2, key, add_assoc, ← succ_nsmul', hk']
+      · simp only [h1, if_false]
+        have hk' : 2 * (k / 2) = k := by omega
+        rw [ih (k / 2) (g + g) acc hk2, key, hk']
+
+/-- **`smul_spec`**: the model's double-and-add is the `k`-fold sum, for every `k` (in particular
+`0, 1, n−1, n, n+1`). -/
+theorem smul_spec {G : Type} [AddMonoid G] (a : F) (φ : G → WPt F) (h0 : φ 0 = .inf)
+    (hadd : ∀ x y, φ (x + y) = W.add a (φ x) (φ y)) (k : Nat) (g : G) :
+    W.smul a k (φ g) = φ (k • g) := by
+  unfold W.smul
+  rw [← h0, smulAux_hom a φ hadd _ k g 0 Nat.lt_log2_self, zero_add]
+
+/-- **`msm_spec`**: the model's multi-scalar multiplication is `Σ kᵢ • gᵢ` (left fold), for vectors
+of every length including 0 and 1. -/
+theorem msm_spec {G : Type} [AddMonoid G] (a : F) (φ : G → WPt F) (h0 : φ 0 = .inf)
+    (hadd : ∀ x y, φ (x + y) = W.add a (φ x) (φ y)) (ks : List Nat) (gs : List G) :
+    W.msm a ks (gs.map φ) = φ ((List.zipWith (fun k g => k • g) ks gs).foldl (· + ·) 0) := by
+  unfold W.msm
+  rw [← h0]
+  generalize (0 : G) = acc
+  induction ks generalizing gs acc with
+  | nil => simp
+  | cons k ks ih =>
+    cases gs with
+    | nil => simp
+    | cons g gs =>
+      simp only [List.map_cons, List.zipWith_cons_cons, List.foldl_cons]
+      rw [smul_spec a φ h0 hadd, ← hadd]
+      exact ih gs (acc + k • g)
+
+/-! ## Non-vacuity: concrete instances over `ZMod 7` -/
+
+instance : Fact (Nat.Prime 7) := ⟨by norm_num⟩
+
+/-- chord case on `y² = x³ + 3` over `𝔽₇`: `P = (1, 2)`, `Q = (2, 2)` -/
+example :
+    let R := Gen.Weierstrass.add (0 : ZMod 7) (3 * 3) 1 2 1 2 2 1
+    wToAff R.1 R.2.1 R.2.2 = W.add (0 : ZMod 7) (wToAff 1 2 1) (wToAff 2 2 1) :=
+  rcb_add_generic (a := 0) (b := 3) (by decide) (by decide) (by decide) (by decide)
+    (by rw [div_one, div_one]; decide) (by simp only [div_one]; decide)
+
+/-- tangent case on the same curve, second operand in the representative `(4 : 1 : 4)` of `(1, 2)` -/
+example :
+    let R := Gen.Weierstrass.add (0 : ZMod 7) (3 * 3) 1 2 1 1 2 1
+    wToAff R.1 R.2.1 R.2.2 = W.add (0 : ZMod 7) (wToAff 1 2 1) (wToAff 1 2 1) :=
+  rcb_add_self (a := 0) (b := 3) (by decide) (by decide) (by decide) rfl rfl (by decide) (by decide)
+
+example : Gen.Weierstrass.double (0 : ZMod 7) (3 * 3) 3 6 3 = Gen.Weierstrass.add 0 (3 * 3) 3 6 3 3 6 3 :=
+  rcb_double_eq_add_self (b := 3) (by decide)
+
+/-- Edwards `x² + y² = 1 + 2x²y²`… over `𝔽₇` with `a = 1`, `d = 3` (a non-square): `P = Q = (0,1)`-free
+instance `P = (1, 0)`, `Q = (0, 6)` -/
+example :
+    let R := Gen.Edwards.add (1 : ZMod 7) 3 1 0 (1 * 0) 1 0 6 (0 * 6) 1
+    eToAff R.1 R.2.1 R.2.2.2 = E.add (1 : ZMod 7) 3 ⟨1, 0⟩ ⟨0, 6⟩ :=
+  ed_add_affine (by decide) (by decide)
+
+/-- `smul_spec`/`msm_spec` instantiated with the subgroup `{∞, (3,0)}` of `y² = x³ + x + 5` over `𝔽₇`
+(`(3,0)` has order 2), `G = ZMod 2` -/
+def phi2 : ZMod 2 → WPt (ZMod 7) := fun t => if t = 0 then .inf else .aff 3 0
+
+example (k : Nat) (g : ZMod 2) : W.smul (1 : ZMod 7) k (phi2 g) = phi2 (k • g) :=
+  smul_spec 1 phi2 (by decide) (by decide) k g
+
+example : W.msm (1 : ZMod 7) [3, 0, 5] ([1, 1, 1].map phi2) = phi2 ((List.zipWith (fun k g => k • g) [3, 0, 5] [1, 1, 1]).foldl (· + ·) 0) :=
+  msm_spec 1 phi2 (by decide) (by decide) _ _
+
 end BronVerif.Props.C14
